@@ -10,9 +10,11 @@ translation fail, which is reported the same way (the obligation is no longer sh
 Supported fragment (anything else raises Unsupported):
   statements   if / elif / else, assignment to a local or parameter, assignment and += / -= to self.<field>,
                return <expr>, raise KeyError(...), pass, docstrings, calls on self.logger, assignments to
-               self.feedback_message (ignored: no property speaks about it)
+               self.feedback_message (ignored: no property speaks about it), self.decorated.stop(INVALID) (an
+               extra Bool result "cancels its child")
   expressions  int / str constants, names, self.<field>, self.decorated.status (parameter `child`),
-               common.Status.X, Blackboard.separator (read from the class body), == != < <= > >=, and / or / not,
+               common.Status.X, Blackboard.separator (read from the class body), time.monotonic() / time.time()
+               (parameter `now`; floats are integers as in the model), == != < <= > >=, and / or / not,
                + (int or str), - , % (Python floor modulus), x.startswith(y), x.endswith(y), x.strip(y), len(x),
                x[e:], "..{}..".format(...), conditional expressions
 Translation: straight-line SSA by continuation; a method becomes a function of (fields read, child status, arguments)
@@ -40,12 +42,16 @@ TARGETS = {
     "C10": [("py_trees/decorators.py", "Retry", "update", "Retry_update"),
             ("py_trees/decorators.py", "Retry", "initialise", "Retry_initialise"),
             ("py_trees/decorators.py", "Repeat", "update", "Repeat_update"),
-            ("py_trees/decorators.py", "Repeat", "initialise", "Repeat_initialise")],
+            ("py_trees/decorators.py", "Repeat", "initialise", "Repeat_initialise"),
+            ("py_trees/decorators.py", "Timeout", "update", "Timeout_update"),
+            ("py_trees/decorators.py", "Timeout", "initialise", "Timeout_initialise")],
     "C15": [("py_trees/blackboard.py", "Blackboard", "absolute_name", "absolute_name"),
             ("py_trees/blackboard.py", "Blackboard", "relative_name", "relative_name")],
     "C17": [("py_trees/behaviours.py", "SuccessEveryN", "update", "SuccessEveryN_update"),
             ("py_trees/behaviours.py", "TickCounter", "update", "TickCounter_update"),
-            ("py_trees/behaviours.py", "TickCounter", "initialise", "TickCounter_initialise")],
+            ("py_trees/behaviours.py", "TickCounter", "initialise", "TickCounter_initialise"),
+            ("py_trees/timers.py", "Timer", "update", "Timer_update"),
+            ("py_trees/timers.py", "Timer", "initialise", "Timer_initialise")],
 }
 
 # generated definition -> the bridge theorem that relates it to the model (Props/<Cxx>g.lean)
@@ -61,6 +67,8 @@ BRIDGE = {
     "absolute_name": "C15_gen_absolute_name", "relative_name": "C15_gen_relative_name",
     "SuccessEveryN_update": "C17_gen_everyN", "TickCounter_update": "C17_gen_tickcounter_update",
     "TickCounter_initialise": "C17_gen_tickcounter_initialise",
+    "Timeout_update": "C10_gen_timeout_update", "Timeout_initialise": "C10_gen_timeout_initialise",
+    "Timer_update": "C17_gen_timer_update", "Timer_initialise": "C17_gen_timer_initialise",
 }
 
 LEAN_TYPE = {"Int": "Int", "Str": "List Char", "Status": "Status", "Bool": "Bool"}
@@ -84,7 +92,8 @@ def ann_type(a):
     if a is None:
         return None
     s = ast.unparse(a)
-    return {"int": "Int", "str": "Str", "bool": "Bool", "common.Status": "Status"}.get(s)
+    # durations / clock readings are floats in the code and integers in the model (integer clock, DESIGN §3)
+    return {"int": "Int", "float": "Int", "str": "Str", "bool": "Bool", "common.Status": "Status"}.get(s)
 
 
 def is_status_const(e):
@@ -101,13 +110,15 @@ def field_types(cls):
         return out
     params = {a.arg: ann_type(a.annotation) for a in init.args.args}
     for st in ast.walk(init):
+        if isinstance(st, ast.AnnAssign) and st.value is not None:
+            st = ast.Assign(targets=[st.target], value=st.value)
         if isinstance(st, ast.Assign) and len(st.targets) == 1:
             t = st.targets[0]
             if isinstance(t, ast.Attribute) and isinstance(t.value, ast.Name) and t.value.id == "self":
                 v = st.value
                 if isinstance(v, ast.Constant) and isinstance(v.value, bool):
                     out[t.attr] = "Bool"
-                elif isinstance(v, ast.Constant) and isinstance(v.value, int):
+                elif isinstance(v, ast.Constant) and isinstance(v.value, (int, float)):
                     out[t.attr] = "Int"
                 elif isinstance(v, ast.Constant) and isinstance(v.value, str):
                     out[t.attr] = "Str"
@@ -175,6 +186,9 @@ class Fn(object):
                             and t.attr not in IGNORED_FIELDS and t.attr not in self.writes:
                         self.writes.append(t.attr)
         self.writes.sort()
+        self.cancels = any(isinstance(n, ast.Call) and ast.unparse(n.func) == "self.decorated.stop"
+                           for n in ast.walk(self.fn))
+        self.uses_now = False
         self.has_value = any(isinstance(n, ast.Return) and n.value is not None for n in ast.walk(self.fn))
 
     # -- expressions ---------------------------------------------------------------------------
@@ -198,6 +212,8 @@ class Fn(object):
                 return ("true" if e.value else "false"), "Bool"
             if isinstance(e.value, int):
                 return "(%d : Int)" % e.value, "Int"
+            if isinstance(e.value, float) and e.value == int(e.value):
+                return "(%d : Int)" % int(e.value), "Int"
             if isinstance(e.value, str):
                 return char_list(e.value), "Str"
             raise Unsupported("constant %r" % (e.value,))
@@ -278,6 +294,9 @@ class Fn(object):
             return "(if %s then %s else %s)" % (c, a, b), ta
         if isinstance(e, ast.Call):
             f = e.func
+            if ast.unparse(f) in ("time.monotonic", "time.time") and not e.args and not e.keywords:
+                self.uses_now = True          # the clock reading is a parameter (constant during one callback)
+                return "now", "Int"
             if isinstance(f, ast.Name) and f.id == "len" and len(e.args) == 1:
                 a, t = self.expr(e.args[0], env)
                 if t != "Str":
@@ -328,6 +347,8 @@ class Fn(object):
             if value is None:
                 raise Unsupported("a path returns no value")
             parts.append(value)
+        if self.cancels:
+            parts.append(env.get("!cancel", ("false", "Bool"))[0])
         r = "(" + ", ".join(parts) + ")" if len(parts) != 1 else parts[0]
         if not parts:
             r = "()"
@@ -345,6 +366,11 @@ class Fn(object):
             if isinstance(v, ast.Constant) and isinstance(v.value, str):
                 return self.block(rest, env, ind)
             if isinstance(v, ast.Call) and ast.unparse(v.func).startswith("self.logger."):
+                return self.block(rest, env, ind)
+            if isinstance(v, ast.Call) and ast.unparse(v.func) == "self.decorated.stop" and len(v.args) == 1 \
+                    and is_status_const(v.args[0]) and v.args[0].attr == "INVALID":
+                env = dict(env)
+                env["!cancel"] = ("true", "Bool")          # the callback cancels its child
                 return self.block(rest, env, ind)
             raise Unsupported("statement " + ast.unparse(st))
         if isinstance(st, ast.Pass):
@@ -417,11 +443,15 @@ class Fn(object):
             binders.append("(f_%s : %s)" % (f, LEAN_TYPE[self.ftypes[f]]))
         if self.uses_child:
             binders.append("(child : Status)")
+        if self.uses_now:
+            binders.append("(now : Int)")
         for p, t in self.params:
             binders.append("(a_%s : %s)" % (p, LEAN_TYPE[t]))
         outs = [LEAN_TYPE[self.ftypes[w]] for w in self.writes]
         if self.has_value:
             outs.append(self.ret_type())
+        if self.cancels:
+            outs.append("Bool")
         ty = " × ".join(outs) if outs else "Unit"
         if self.raises:
             ty = "Except PyErr (%s)" % ty
